@@ -294,8 +294,9 @@ static long npoints(const For &F)
     const Dom &D = getD(F.d);
     long n = 1;
     for (size_t k=1; k<D.sizes.size(); k++) {
-        n *= D.sizes[k];
-        if (F.rel) n *= D.sizes[k];
+        const long sk = (F.alive && F.f) ? long(F.f->getLevelSize(int(k))) : long(D.sizes[k]);
+        n *= sk;
+        if (F.rel) n *= sk;
     }
     return n;
 }
@@ -307,7 +308,8 @@ static void rank2minterm(const For &F, long r, minterm &m)
     const Dom &D = getD(F.d);
     const int K = int(D.sizes.size())-1;
     for (int k=1; k<=K; k++) {
-        const int s = D.sizes[k];
+        // size of *level* k (the forest may have reordered its variables)
+        const int s = (F.alive && F.f) ? F.f->getLevelSize(k) : D.sizes[k];
         if (F.rel) {
             int pr = int(r % s); r /= s;
             int un = int(r % s); r /= s;
@@ -325,7 +327,7 @@ static long minterm2rank(const For &F, const minterm &m)
     const int K = int(D.sizes.size())-1;
     long r = 0;
     for (int k=K; k>=1; k--) {
-        const int s = D.sizes[k];
+        const int s = (F.alive && F.f) ? F.f->getLevelSize(k) : D.sizes[k];
         if (F.rel) {
             r = (r * s + m.from(unsigned(k))) * s + m.to(unsigned(k));
         } else {
@@ -359,6 +361,8 @@ static void ev2words(const edge_value &ev, std::vector<long> &w)
     w.push_back(long(bits & 0xffffffUL));
     w.push_back(long((bits>>24) & 0xffffffUL));
     w.push_back(long(bits>>48));
+    // the type of the edge value is part of an edge's identity (dd_edge::operator==)
+    w.push_back(ev.isVoid() ? 0 : ev.isInt() ? 1 : ev.isLong() ? 2 : ev.isFloat() ? 3 : 4);
 }
 
 static long ev2long(const edge_value &ev)
@@ -640,11 +644,39 @@ static void do_snap(int fi)
     std::vector<long> l2v;
     for (int k=1; k<=K; k++) l2v.push_back(f->getVarByLevel(k));
 
+    // every live dd_edge of the harness attached to this forest
+    std::string eds = "[";
+    {
+        bool firste = true;
+        for (std::map<int,dd_edge*>::iterator it=edges.begin(); it!=edges.end(); ++it) {
+            if (!it->second) continue;
+            const dd_edge &e = *(it->second);
+            if (e.getForest() != f) continue;
+            if (!firste) eds += ',';
+            firste = false;
+            eds += "{\"s\":" + std::to_string(it->first) + ",\"n\":" + std::to_string(e.getNode())
+                + ",\"ev\":" + std::to_string(ev2long(e.getEdgeValue()))
+                + ",\"tv\":" + std::to_string(e.getNode() <= 0 ? term_value(F, e.getNode()) : 0);
+            try {
+                std::vector<long> fn;
+                table_of(F, e, fn);
+                eds += ",\"fn\":" + jarr(fn);
+                eds += ",\"nc\":" + std::to_string(e.getNodeCount());
+                eds += ",\"ec\":" + std::to_string(e.getEdgeCount(false));
+                eds += ",\"ecz\":" + std::to_string(e.getEdgeCount(true));
+            } catch (error er) {
+                eds += ",\"oerr\":\"" + std::string(errname(er.getCode())) + "\"";
+            }
+            eds += "}";
+        }
+    }
+    eds += "]";
+
     J j("Snap");
     j.i("f", fi).i("fid", F.fid).i("last", last).i("active", nactive)
      .i("nn", f->getCurrentNumNodes()).i("utsum", utsum)
      .arr("ut", ut).arr("roots", roots).arr("l2v", l2v)
-     .raw("nodes", nodes).raw("zomb", zomb);
+     .raw("nodes", nodes).raw("zomb", zomb).raw("edges", eds);
     j.done();
 }
 
@@ -674,7 +706,7 @@ static void cmd_init(Toks &)
         lib_running = true;
         make_user_factories();
         if (want_lifecycle) the_verif_tracer = &the_tracer;
-        j.i("ok", 1).i("cts", ct_style).i("stale", ct_stale).i("max", ct_max);
+        j.i("ok", 1).i("cts", ct_style).i("stale", ct_stale).i("max", ct_max).i("life", want_lifecycle ? 1 : 0);
     } catch (error e) {
         j.i("ok", 0).s("err", errname(e.getCode()));
     }
